@@ -16,6 +16,10 @@ def import_style(pid, body):
     import the seq package themselves (under its own or another name)"""
     import zlib
     style = IMPORT_STYLES[zlib.crc32(pid.encode()) % len(IMPORT_STYLES)]
+    if "SEQPKG." in body:
+        # the program uses the seq package itself (hand-written combinator terms in a bystander)
+        style = ("dot+seq", "default+seq-renamed")[zlib.crc32(pid.encode()) % 2]
+        body = body.replace("SEQPKG.", "seq." if style == "dot+seq" else "sq.")
     q = {"dot": "", "dot+seq": "", "default": "co.", "renamed": "gen.", "default+seq-renamed": "co."}[style]
     if q:
         body = re.sub(r"\bYieldFrom\(", q + "YieldFrom(", body)
